@@ -107,11 +107,11 @@ PROPS['C02'].update({
     'level_note': 'Position moved from is untouched: pos_move is a pure function in the model; on the Go side the harness re-dumps the origin after every move. Trusted: Coq kernel; model of Go shifts/array indexing; harness.',
 })
 
-GEN_SEARCH = 'The theorems are about the search function of Model/Search.v itself (the function that is extracted and compared with Go: halted flag, node count, score, whole PV and poll count equal on every case), over any game satisfying explicit representation laws; SearchToy.v discharges the laws for a concrete game, Lemmas/SearchBoardInst*.v (in progress) for the heap board. '
+GEN_SEARCH = 'The theorems are about the search function of Model/Search.v itself (the function that is extracted and compared with Go: halted flag, node count, score, whole PV and poll count equal on every case), over any game satisfying explicit representation laws; SearchToy.v discharges the laws for a concrete game, Lemmas/SearchBoardInst*.v for the real heap board (board_* theorems). '
 for _pid, _txt, _note in [
-    ('C03', 'Proof: for every game tree satisfying the representation laws, every depth with qfuel + depth <= 127, every move order (the heap order is a permutation) and exploration predicate, the full-window search returns the reference minimax value (Go ==), the PV is a legal line no longer than the depth whose first move attains the value, the board is handed back at the same node (a draw claimable on entry still claimable), the root is expanded even when drawn. ', 'Value equality is up to Go == (+0 = -0). Depth bound 127 = int8 mate distance. The reference mm of the theorems is tied to the specification game (spec_mm, used as oracle against Go) by the C01/C02/C05 refinements only informally so far. Deep (depth 4-5) failing-input search uses the repository s exhaustive Minimax.'),
-    ('C13', 'Proof: the window-agnostic contract Rm a b v r (r == v, or v <= r <= a, or b <= r <= v) for alpha-beta and quiescence for ALL windows incl. mate bounds and collapsed windows; the three-case statement of the property for a < b; quiescence never below stand-pat when a legal move exists and exact on checkmate/stalemate; the adjunction less s (T v) = less v (U s) for the repaired child window and its refutation for the legacy one. ', 'Quiescence termination: fuel sufficiency is a hypothesis (qfin); Depth bound 127.'),
-    ('C11', 'Proof: under the property s own preconditions (HashValue: the hash identifies the search value - position-determined evaluation, no history draw inside the tree, no collision) and the table law (an entry readable after a write is the written one or was readable before: any size/replacement policy), TTInv (every exact entry is the true value at its depth) is preserved by every run and all search theorems hold with the table as without, for any sequence of searches sharing it. ', 'HashValue is a hypothesis (it is the property s precondition); TTLaw for the concrete table of Model/TT.v is being proved in SearchBoardInst. Exact writes of the implementation are sampled and evaluated by the reference minimax.'),
+    ('C03', 'Proof: for every game tree satisfying the representation laws, every depth with qfuel + depth <= 127, every move order (the heap order is a permutation) and exploration predicate, the full-window search returns the reference minimax value (Go ==), the PV is a legal line no longer than the depth whose first move attains the value, the board is handed back at the same node (a draw claimable on entry still claimable), the root is expanded even when drawn. The reference value is proved equal to the minimax value spec_mm of the FIDE game tree of the specification (mailbox rules, repetition / fifty-move / insufficient-material draws, mate, stalemate) for the engine configuration - material leaf, full exploration, captures-only quiescence (board_search_is_spec_minimax, also with a table under HashValue, for boards carrying a game and for freshly set-up boards): legal moves agree up to a permutation, the fold over children is order-independent up to ==. ', 'Value equality is up to Go == (+0 = -0; Leibniz equality is refuted). Depth bound 127 = int8 mate distance. Side condition: not (depth 0 with quiescence at a root where a draw can be claimed) - depth0_corner, unreachable through iterative deepening. Other leaf evaluations / move policies enter as explicit correspondence hypotheses (b_mm_is_spec_mm). Deep (depth 4-5) failing-input search uses the repository s exhaustive Minimax.'),
+    ('C13', 'Proof: the window-agnostic contract Rm a b v r (r == v, or v <= r <= a, or b <= r <= v) for alpha-beta and quiescence for ALL windows incl. mate bounds and collapsed windows; the three-case statement of the property for a < b; quiescence never below stand-pat when a legal move exists and exact on checkmate/stalemate; the adjunction less s (T v) = less v (U s) for the repaired child window and its refutation for the legacy one; board_window_is_spec states the three cases with v = the minimax value of the FIDE game tree of the specification. ', 'Quiescence termination: fuel sufficiency is a hypothesis (qfin); Depth bound 127.'),
+    ('C11', 'Proof: under the property s own preconditions (HashValue: the hash identifies the search value - position-determined evaluation, no history draw inside the tree, no collision) and the table law (an entry readable after a write is the written one or was readable before: any size/replacement policy), TTInv (every exact entry is the true value at its depth) is preserved by every run and all search theorems hold with the table as without, for any sequence of searches sharing it. ', 'HashValue is a hypothesis (it is the property s precondition); TTLaw for the concrete table of Model/TT.v is proved (board_tt_law). Exact writes of the implementation are sampled and evaluated by the reference minimax.'),
     ('C12', 'Proof for every cancellation oracle (every poll index): halted exactly when the final poll is cancelled (no score, no PV), board handed back at the same node, table invariant preserved (nothing false is left behind), a search entered after cancellation returns at once and writes nothing; with C11 a following search returns the reference value. ', 'Cancellation oracle monotone. The implementation is cancelled at poll indices 0..987 through a counting context and compared with the model poll by poll.'),
 ]:
     PROPS[_pid].update({
@@ -121,6 +121,8 @@ for _pid, _txt, _note in [
         'level_text': _txt + GEN_SEARCH,
         'level_note': _note + ' Trusted: Coq kernel; container/heap, context cancellation and eval.Material as modelled (exercised by exact correspondence); harness.',
     })
+PROPS['C03']['obligation_files'] += ['Lemmas/MinimaxRefines.v', 'Lemmas/SearchBoardInst.v']
+PROPS['C13']['obligation_files'] += ['Lemmas/MinimaxRefines.v', 'Lemmas/SearchBoardInst.v']
 
 PROPS['C14'] = _board('C14', ['C14'],
     'encode/decode round trips on curated, playout and synthetic positions with clocks up to 2^30, all 16 castling-right subsets x 7 e.p. squares on a skeleton; engine-reported FEN after every Move / TakeBack of random games (30% special moves) from random and initial starts.',
